@@ -1354,3 +1354,18 @@ func (c *conn) streamReq(p *pkt) {
 	s.mu.Unlock()
 	s.push(cl, vb)
 }
+
+func (cl *Cluster) SetVersion(v string) { cl.mu.Lock(); cl.Version = v; cl.mu.Unlock() }
+
+func (cl *Cluster) SetBucketInfo(bucketType, storage string) {
+	cl.mu.Lock()
+	cl.BucketType, cl.Storage = bucketType, storage
+	cl.mu.Unlock()
+}
+
+// Controls returns the DCP_CONTROL key=value pairs received so far.
+func (cl *Cluster) Controls() []string {
+	cl.mu.Lock()
+	defer cl.mu.Unlock()
+	return append([]string{}, cl.DcpControls...)
+}
